@@ -44,4 +44,19 @@ let dispatch (f : string array) : string option =
       Some (String.concat ";" (List.map (function Some b -> "c" ^ hex_of_bytes b | None -> "none") tr))
   | "expand" -> Some (out_res out_str (api_expand (parse_env f.(1)) (a 2)))
   | "abs_m" | "abs_s" -> Some (out_res out_str (api_abs (parse_env f.(1)) (a 2) (a 3)))
+  | "xdg" ->
+      (* xdg <envspec> <fn> *)
+      let e = parse_env f.(1) in
+      let home k = Some (out_res out_str (api_xdg_home (n_of_int k) e)) in
+      let dirs k = Some (out_res out_strlist (api_xdg_dirs (n_of_int k) e)) in
+      (match f.(2) with
+       | "config_dir" -> home 0 | "cache_dir" -> home 1 | "data_dir" -> home 2 | "state_dir" -> home 3
+       | "runtime_dir" -> home 4 | "sys_config_dirs" -> dirs 0 | "sys_data_dirs" -> dirs 1 | "path_dirs" -> dirs 2
+       | _ -> None)
+  | "getrids" ->
+      let (u, g) = api_getrids (parse_env f.(1)) (n_of_int (int_of_string f.(2))) (n_of_int (int_of_string f.(3))) in
+      Some (Printf.sprintf "P:%d,%d" (int_of_n u) (int_of_n g))
+  | "vfs_config_dir_m" | "vfs_config_dir_s" ->
+      let files = if Array.length f > 3 && f.(3) <> "" then List.map arg_str (String.split_on_char ',' f.(3)) else [] in
+      Some (out_opt_str (api_vfs_config_dir (parse_env f.(1)) (a 2) files))
   | _ -> None
